@@ -111,6 +111,15 @@ pub fn check_v6(c: &Chain, first: u8, mode: &str, ctx: &mut Ctx, input: &dyn Fn(
     if hl != model_len {
         fail(ctx, "Ipv6Extensions::header_len", "len", "!=sum-of-headers", format!("header_len()={} but the present headers serialise to {} bytes", hl, model_len), input)?;
     }
+    // the routing part announces its own share (routing header + final destination options)
+    if let Some(r) = &ext.routing {
+        let want = r.routing.header_len() + r.final_destination_options.as_ref().map(|h| h.header_len()).unwrap_or(0);
+        match catch(|| r.header_len()) {
+            Ok(l) if l == want => {}
+            Ok(l) => fail(ctx, "Ipv6RoutingExtensions::header_len", "len", "!=sum-of-headers", format!("header_len()={} but routing + final destination options serialise to {} bytes", l, want), input)?,
+            Err(p) => fail(ctx, "Ipv6RoutingExtensions::header_len", "panic", &panic_shape(false, &p), p.clone(), input)?,
+        }
+    }
 
     // walking
     match catch(|| ext.next_header(IpNumber(first))) {
